@@ -21,4 +21,4 @@ export -f one
 ls seeded | grep -E "$PAT" | xargs -P $LANES -I{} bash -c 'one {}' | tee $OUT/log
 git -C /repo worktree prune
 echo "SEEDED REGRESS: caught=$(grep -c ': caught by' $OUT/log) missed=$(grep -c -v ': caught by' $OUT/log)"
-grep -v ': caught by' $OUT/log
+grep -v ": caught by" $OUT/log; [ "$(grep -c -v ": caught by" $OUT/log)" -eq 0 ]
